@@ -542,7 +542,9 @@ def canon_trace(lines, compressed):
         elif l.startswith("ev "): out.append(("e", l[3:], ""))
     # how much a compressor has emitted before its stream is finished is its own business, and so is how much of a named output a
     # std::ofstream has handed to the operating system before it is flushed or closed: writes to an output that is never closed in
-    # this trace are not compared (compressed outputs, and the '.part' files of named outputs)
-    closed = set(x[1][6:] for x in out if x[0] == "e" and x[1].startswith("close "))
-    out = [x for x in out if not (x[0] == "w" and x[1] not in closed and (compressed or x[1].endswith(".part")))]
+    # this trace - after its last close, when the name is used several times - are not compared (compressed outputs, and the '.part' files of named outputs)
+    last_close = {}
+    for k, x in enumerate(out):
+        if x[0] == "e" and x[1].startswith("close "): last_close[x[1][6:]] = k
+    out = [x for k, x in enumerate(out) if not (x[0] == "w" and k > last_close.get(x[1], -1) and (compressed or x[1].endswith(".part")))]
     return ["write %s %s" % (x[1], x[2]) if x[0] == "w" else x[1] for x in out]
